@@ -89,4 +89,24 @@ PROPS = {
         assumptions=ENC,
         trusted_base=["markdown-it-py 3.0.0 token model (to_tokens of a heading = 3 tokens)", "mdit-py-plugins 0.6.1 anchors plugin (oracle of the bounded CLI comparison)"],
     ),
+    "C05": dict(
+        level="other",
+        contracts=["contracts.sections"],
+        harness=True,
+        explanation=(
+            "PROVED for every state of the open-level map and every level >= 1 (hence, by induction over the heading "
+            "sequence, for every sequence of levels, skipped ones included; no bound): update_section_level_state attaches "
+            "the new section as the LAST child of old_map[P] with P the greatest open level below `level` (the closest "
+            "preceding still-open heading of lower level, or the document at level 0), keeps what that parent already had, "
+            "leaves exactly the levels below `level` open plus `level` -> section and nothing deeper, and emits exactly one "
+            "'header' warning iff P+1 != level and none otherwise; the map invariant (level 0 always open, no negative "
+            "level) is preserved; max() never sees an empty sequence.  Relative to the assumed docutils node model "
+            "(append) and the abstracted warning API.  BOUNDED: whole-document nesting, warning counts and order against "
+            "a reference model for all level sequences up to a length, and headings nested in block quotes / list items / "
+            "directive bodies become rubrics with a level and leave the section structure alone (render_heading itself "
+            "is not yet under contract)."
+        ),
+        assumptions=ENC,
+        trusted_base=["docutils node model (contracts/assumed_docutils.py)"],
+    ),
 }
